@@ -126,7 +126,7 @@ KNOWN_CASES = [
 
 
 def run(ctx, rep):
-    n = ctx.n(160, 6000)
+    n = ctx.n(160, 3000)
     cases = [{"seed": f"C17:{ctx.seed}:{i}"} for i in range(n)]
     files = sorted(glob.glob(os.path.join(ctx.repo, "tests/should_ok/*.er")) + glob.glob(os.path.join(ctx.repo, "examples/*.er")))
     cases += [{"file": f} for f in files]
